@@ -205,9 +205,9 @@ def gen_ids(rng, size, n, zero_rich=False, pool=None):
     return out
 
 
-def gen_keyword(rng, limit, used):
+def gen_keyword(rng, limit, used, min_len=1):
     for _ in range(1000):
-        n = rng.choice([1, 2, 3, rng.randint(1, limit), limit])
+        n = rng.choice([1, 2, 3, rng.randint(1, limit), limit]) if min_len <= 1 else rng.randint(min_len, limit)
         n = max(1, min(limit, n))
         kw = bytes([rng.randrange(1, 256)]) + rng.randbytes(n - 1)
         if kw not in used:
@@ -319,7 +319,7 @@ def make_db(rng, scheme, cfg, cls, scale=48):
     return db_from_lens(rng, scheme, cfg, lens, cls)
 
 
-def db_from_lens(rng, scheme, cfg, lens, cls="profile", fix_config=True):
+def db_from_lens(rng, scheme, cfg, lens, cls="profile", fix_config=True, kw_min=1, kw_max=None):
     """Build a database with exactly the given posting-list lengths (caller guarantees they respect capacities)."""
     cp = caps(scheme, cfg)
     isz = cp["id_size"]
@@ -334,7 +334,7 @@ def db_from_lens(rng, scheme, cfg, lens, cls="profile", fix_config=True):
         nfiles = min(max(max(lens), min(total_ids, 14)), 256 ** isz - 1)
         pool = gen_ids(rng, isz, nfiles, zero_rich)
     for n in lens:
-        kw = gen_keyword(rng, cp["kw_limit"], used)
+        kw = gen_keyword(rng, min(cp["kw_limit"], kw_max or cp["kw_limit"]), used, kw_min)
         used.add(kw)
         ids = gen_ids(rng, isz, n, zero_rich, pool)
         if shared is not None and shared not in ids:
